@@ -47,6 +47,7 @@ type Obligation struct {
 	Outside     string   `json:"outside,omitempty"`
 	Assumptions []string `json:"assumptions,omitempty"`
 	NoReplay    bool     `json:"no_replay,omitempty"` // sample models are not replayed natively (e.g. schedule dependent)
+	NativeRace  bool     `json:"native_race,omitempty"` // counterexamples are schedule dependent: replay under the race detector, repeated
 	WitnessOnly bool     `json:"witness_only,omitempty"`
 }
 
@@ -555,6 +556,10 @@ func nativeConfirms(v *violation) bool {
 		return v.Kind == "panic" || v.Kind == "assert"
 	case "hang":
 		return v.Kind == "deadlock"
+	case "race":
+		// the real build, under the race detector, reports unsynchronised access on this harness:
+		// the interleaving the engine found is not excluded by any synchronisation
+		return true
 	}
 	return false
 }
@@ -629,9 +634,15 @@ func nativeReplay(o *Obligation, verifDir, dir string, cases []replayCase) ([]st
 		lp := filepath.Join(dir, fmt.Sprintf("cases%d.json", attempt))
 		b, _ := json.Marshal(batch)
 		os.WriteFile(lp, b, 0o644)
-		cmd := osexec.Command("go", "test", "-vet=off", "-count=1", "-overlay", op, "-run", "^TestVerifReplay$", "-timeout", "60s", "-v", "./"+o.Pkg)
+		targs := []string{"test", "-vet=off", "-count=1", "-overlay", op, "-run", "^TestVerifReplay$", "-timeout", "60s", "-v"}
+		env := append(os.Environ(), "GOFLAGS=-mod=mod", "GOPROXY=off", "GOSUMDB=off", "GOTOOLCHAIN=local", "VERIF_REPLAY="+lp)
+		if o.NativeRace {
+			targs = append(targs, "-race")
+			env = append(env, "VERIF_REPEAT=300")
+		}
+		cmd := osexec.Command("go", append(targs, "./"+o.Pkg)...)
 		cmd.Dir = repoDir
-		cmd.Env = append(os.Environ(), "GOFLAGS=-mod=mod", "GOPROXY=off", "GOSUMDB=off", "GOTOOLCHAIN=local", "VERIF_REPLAY="+lp)
+		cmd.Env = env
 		var out bytes.Buffer
 		cmd.Stdout = &out
 		cmd.Stderr = &out
@@ -644,6 +655,16 @@ func nativeReplay(o *Obligation, verifDir, dir string, cases []replayCase) ([]st
 			if k < len(pending) {
 				sts[pending[k]] = m[2]
 				seen[k] = true
+			}
+		}
+		if o.NativeRace {
+			// a data race reported while case k ran (between its START and RESULT lines)
+			for k := range pending {
+				a := strings.Index(s, fmt.Sprintf("VERIF-CASE-START %d ", k))
+				b := strings.Index(s, fmt.Sprintf("VERIF-CASE-RESULT %d ", k))
+				if a >= 0 && b > a && strings.Contains(s[a:b], "WARNING: DATA RACE") && (sts[pending[k]] == "ok" || sts[pending[k]] == "assume-false") {
+					sts[pending[k]] = "race"
+				}
 			}
 		}
 		// a case that started but never reported crashed (or hung) the test binary
